@@ -166,20 +166,24 @@ def chunksAux {α : Type} (size : Nat) : Nat → List α → List (List α)
 
 def chunks {α : Type} (size : Nat) (d : List α) : List (List α) := chunksAux size d.length d
 
-/-- the `for (i, block) in data.chunks(block_size).enumerate()` loop of `write_all` -/
+/-- body of the `for (i, block) in data.chunks(block_size).enumerate()` loop of `write_all` -/
+def loopBody (addr aligned blockCnt : Nat) (noFlash : Bool) (i : Nat) (block : List UInt8) (st : St) : Res St :=
+  if ¬ i < blockCnt then .panic "write_all: debug_assert!(i < block_cnt)"
+  else if i * st.cfg.ps > 18446744073709551615 then .panic "write_all: i * block_size"
+  else if ¬ i < blockCnt - 1 ∧ aligned < i * st.cfg.ps then .panic "write_all: aligned - i * block_size"
+  else if addr + (i * st.cfg.ps) % 4294967296 > 4294967295 then .panic "write_all: addr + i * block_size"
+  else
+    let blockLen := if i < blockCnt - 1 then st.cfg.ps % 4294967296 else (aligned - i * st.cfg.ps) % 4294967296
+    encode st (addr + (i * st.cfg.ps) % 4294967296) block blockLen noFlash
+
+/-- the loop itself (kept separate from its body so that Lean's equation lemmas stay small) -/
 def writeLoop (addr aligned blockCnt : Nat) (noFlash : Bool) : Nat → List (List UInt8) → St → Res St
   | _, [], st => .ok st
   | i, block :: rest, st =>
-    if ¬ i < blockCnt then .panic "write_all: debug_assert!(i < block_cnt)"
-    else if i * st.cfg.ps > 18446744073709551615 then .panic "write_all: i * block_size"
-    else if ¬ i < blockCnt - 1 ∧ aligned < i * st.cfg.ps then .panic "write_all: aligned - i * block_size"
-    else if addr + (i * st.cfg.ps) % 4294967296 > 4294967295 then .panic "write_all: addr + i * block_size"
-    else
-      let blockLen := if i < blockCnt - 1 then st.cfg.ps % 4294967296 else (aligned - i * st.cfg.ps) % 4294967296
-      match encode st (addr + (i * st.cfg.ps) % 4294967296) block blockLen noFlash with
-      | .ok st' => writeLoop addr aligned blockCnt noFlash (i + 1) rest st'
-      | .err e => .err e
-      | .panic s => .panic s
+    match loopBody addr aligned blockCnt noFlash i block st with
+    | .ok st' => writeLoop addr aligned blockCnt noFlash (i + 1) rest st'
+    | .err e => .err e
+    | .panic s => .panic s
 
 /-- `Uf2Write::write_all` -/
 def writeAll (st : St) (addr : Nat) (data : List UInt8) (noFlash : Bool) : St × Res Nat :=
